@@ -10,6 +10,7 @@ from .mir import Unsupported
 def client_mir(name, actions):
     """MIR text of a synthetic client thread (it runs on the same interpreter as the crate's MIR). Actions:
        ('alloc_bytes', k)            m := alloc_bytes_in(_k); on success own(m), fill(m) - the handle's slot is the next free one
+       ('alloc_typed', 'u64')        m := alloc_in::<u64>()            ('alloc_aligned', k, 'u64')  m := alloc_aligned_bytes_in::<u64>(_k)
        ('free_slot', j) / ('free_last',)   check(m_j); release(j); dealloc(m_j.memory_offset, m_j.memory_size)   (what Drop does)
        ('forget_slot', j)            release(j) without dealloc (a detached handle / hand-over to another thread)
        ('check_slot', j)             check(m_j)
@@ -51,12 +52,17 @@ def client_mir(name, actions):
         close("_%d = <sync::Arena as allocator::Allocator>::dealloc(copy _1, copy _%d, copy _%d) -> [return: bb%d, unwind continue];" % (u3, o, s_, b + 3))
 
     for a in actions:
-        if a[0] == "alloc_bytes":
+        if a[0] in ("alloc_bytes", "alloc_typed", "alloc_aligned"):
             r, d1, opt, d2, meta, u1, u2 = [newl() for _ in range(7)]
             b = len(bbs)
             slot = next_slot[0]
             next_slot[0] += 1
-            close("_%d = sync::Arena::alloc_bytes_in(copy _1, copy _%d) -> [return: bb%d, unwind continue];" % (r, a[1], b + 1))
+            if a[0] == "alloc_bytes":
+                close("_%d = sync::Arena::alloc_bytes_in(copy _1, copy _%d) -> [return: bb%d, unwind continue];" % (r, a[1], b + 1))
+            elif a[0] == "alloc_typed":
+                close("_%d = sync::Arena::alloc_in::<%s>(copy _1) -> [return: bb%d, unwind continue];" % (r, a[1], b + 1))
+            else:
+                close("_%d = sync::Arena::alloc_aligned_bytes_in::<%s>(copy _1, copy _%d) -> [return: bb%d, unwind continue];" % (r, a[2], a[1], b + 1))
             cur.append("_%d = discriminant(_%d);" % (d1, r))
             close("switchInt(move _%d) -> [0: bb%d, otherwise: bbEND];" % (d1, b + 2))
             cur.append("_%d = copy ((_%d as Ok).0: Option<Meta>);" % (opt, r))
@@ -126,7 +132,7 @@ def client_mir(name, actions):
 
 
 def nslots(actions):
-    return max([a[3] + 1 for a in actions if a[0] == "free_given"] + [0]) + sum(1 for a in actions if a[0] == "alloc_bytes")
+    return max([a[3] + 1 for a in actions if a[0] == "free_given"] + [0]) + sum(1 for a in actions if a[0] in ("alloc_bytes", "alloc_typed", "alloc_aligned"))
 
 
 class World:
